@@ -110,7 +110,7 @@ func TestVerifC09(t *testing.T) {
 	defer r.Flush()
 	ob := 1
 	if ev.Thorough() {
-		ob = 2
+		ob = 3
 	}
 	r.Rule(fmt.Sprintf("every subset of 7 record archetypes (live, vanished, exited sandbox, vanished sticky-IP, vanished on an interface with no kernel device, API lookup error, a second vanished pod that sorts last) as (store, pool, pod list) triple; the real gcPods is run three times inside a private network namespace (gcPolicyRoutes/ruleSync talk to the real kernel; lo is the only netlink.Device and stands for the attached interface); store iteration order is an explorer choice (<=%d non-default orders); oracle: after two passes exactly the records and pool ownership of the pods the API confirms absent are gone, everything else is untouched, a third pass changes nothing; plus interleavings gcPods || AllocIP(new pod) || ReleaseIP(vanishing pod)", ob))
 	var scs []dwScenario
@@ -215,7 +215,7 @@ func TestVerifC09(t *testing.T) {
 		}
 		d := 2
 		if ev.Thorough() {
-			d = 3
+			d = 4
 		}
 		scs = append(scs, dwScenario{Name: "gc||add(fresh)||del(vanished)", Budget: [4]int{d, 1, 0, 0}, Body: body})
 	}
